@@ -8,7 +8,9 @@ From ApiFu Require Import Base.Sexp.
 From ApiFu Require Syn.Ast Syn.ParserModel Syn.FrontEnd.
 From ApiFu Require Vld.Ast Vld.ValidatorModel Vld.ValidSpec Vld.ProofsCommon Vld.ValidatorProofs Vld.MemoEquiv.
 From ApiFu Require Val.Values ExeA.ArgData ExeA.ArgArgs ExeA.ArgModel ExeA.ArgSpec ExeA.ArgHyps.
+From ApiFu Require Val.CoerceModel Val.CoerceTotal.
 From ApiFu Require Import Pipe.Convert Pipe.Compose Pipe.SchemaAgree Pipe.PositionsProofs Pipe.FieldPositions Pipe.ComposeProofs Pipe.CondsProofs.
+From ApiFu Require Pipe.CostCompose Pipe.CostComposeProofs.
 Import ListNotations.
 
 Lemma selected_operation_kind d opname o :
@@ -106,3 +108,17 @@ Theorem doc_ok_from_sels_ok pi VS F ES :
   Vld.ProofsCommon.order_ok pi -> schemas_agree VS ES = true ->
   validate_establishes_sels_ok pi VS F ES -> validate_establishes_doc_ok pi VS F ES.
 Proof. intros Hpi Ha Hs. apply doc_ok_from_typing; [assumption|assumption|]. apply typing_from_sels_ok; assumption. Qed.
+
+(** conjunct (g), [args_total]: coercing a field node's arguments never hits the "unsupported type"
+    panic of the coercion code, for every document, field and object type — given closed input and
+    argument types (C05's argument_values_no_panic) *)
+Theorem args_total_closed ES D ot f :
+  Pipe.CostCompose.cost_schema_accepted ES = true -> ExeA.ArgSpec.args_total ES D ot f = true.
+Proof.
+  intro Hs. apply andb_true_iff in Hs as [HC Hcl]. unfold ExeA.ArgSpec.args_total, ExeA.ArgArgs.coerce_field_args.
+  destruct (Val.CoerceModel.coerce_argument_values Val.CoerceModel.all_fixed (ExeA.ArgData.s_inputs ES) (ExeA.ArgArgs.dt_oracle ES)
+              (ExeA.ArgArgs.argdefs_of ES ot (ExeA.ArgData.fn_name f)) (ExeA.ArgArgs.args_of D f) (ExeA.ArgData.d_vars D)) eqn:Ec;
+    try reflexivity.
+  exfalso. refine (Val.CoerceTotal.argument_values_no_panic _ _ HC _ _ _ _ _ Ec).
+  intros ad Hin. exact (Pipe.CostComposeProofs.argdefs_of_closed ES ot _ ad Hcl Hin).
+Qed.
